@@ -167,7 +167,8 @@ def check(case):
     ctx = "mean=%s cov=%s Y=%s X=%s x=%s" % (fmean.tolist(), fcov.tolist(), case.get("Y"), case.get("X"), case.get("x"))
     if sub == "errors":
         return _check_errors(sempler, case, fmean, fcov, ctx)
-    dist = must(lib(sempler.NormalDistribution, fmean.copy(), fcov.copy()), "NormalDistribution(...)")
+    from props.gcommon import relayout
+    dist = must(lib(sempler.NormalDistribution, relayout(fmean.copy()), relayout(fcov.copy())), "NormalDistribution(...)")
     Y, Xi = list(case["Y"]), list(case["X"])
     x = [fr(v) for v in case["x"]]
     lab = []
